@@ -240,6 +240,8 @@ func (r *Runner) Note(s string) { r.sum.Notes = append(r.sum.Notes, s) }
 // Count adds to a named extra counter.
 func (r *Runner) Count(name string, n int64) { r.sum.Extra[name] += n }
 
+var dumpAll = os.Getenv("VERIF_DUMP") != ""
+
 func h64(s string) uint64 {
 	h := fnv.New64a()
 	h.Write([]byte(s))
@@ -294,6 +296,9 @@ func (r *Runner) record(caseID string, x *X, res Result, hist []int) {
 		return
 	}
 	r.sum.Evaluations++
+	if dumpAll {
+		fmt.Fprintf(os.Stderr, "DUMP %s %v %v %s %s\n", caseID, x.Choices, x.Arity, res.Outcome, res.Class)
+	}
 	if r.sum.Evaluations&0xfff == 0 && time.Since(r.lastCkpt) > 2*time.Second {
 		r.checkpoint()
 	}
@@ -337,7 +342,10 @@ func (r *Runner) runOne(prefix []int, trace bool, body func(x *X) Result) (x *X,
 	defer func() {
 		if e := recover(); e != nil {
 			if ne, ok := e.(nondetError); ok {
-				fmt.Fprintf(os.Stderr, "VERIF-INFRA nondeterminism: %s\n", ne.msg)
+				fmt.Fprintf(os.Stderr, "VERIF-INFRA nondeterminism: %s (prefix %v, choices so far %v, arities %v)\n", ne.msg, prefix, x.Choices, x.Arity)
+				for _, l := range x.Log {
+					fmt.Fprintln(os.Stderr, "   | "+l)
+				}
 				os.Exit(3)
 			}
 			msg := fmt.Sprint(e)
